@@ -120,7 +120,7 @@ PROPS.update({
   "level": "fault_enumeration", "design_ref": "DESIGN.md §5 P-C10",
   "technique": "deterministic simulation with crash injection: the approve script is cut after every prefix (incl. between the halves of a joined line) on the device model, the partially changed device is printed in device spelling and the real tool approves again; plus live sessions cut by a dropped connection (and, on IOS, the reload guard firing) followed by a second live session",
   "level_text": "For every sampled pair ALL cut positions of the script are enumerated; the second approve must be accepted, executable, converge to the target's canonical view, and a third compare must be empty. Sampled pairs, exhaustive cuts per pair.",
-  "level_note": "ASA and IOS in this tree. Trusts node model and canonical view.",
+  "level_note": "ASA and IOS: all cut positions in plan mode plus live cuts; PAN-OS and NSX (a sixth of the cases each): a live session cut by a dropped connection at every change request in turn, second live session judged by the oracles of C03 / C04. Trusts node models and canonical views.",
   "rule": "evaluations = (pair, cut) resumptions; non-trivial = pair with non-empty script; distinct = hash of texts",
   "quick": B(12000, 50), "thorough": B(150000, 1200),
   "real": REAL_PLAN + ["pkg/doapprove, pkg/console (live cuts)"], "stubs": STUB_PLAN + STUB_LIVE, "assumptions": ASSUME_LIVE, "min_nontrivial": 50,
